@@ -9,7 +9,7 @@ Inductive cbobs := CBPanic | CBTable (rows : list (bytes * Z)) (nulls : Z).
 Inductive sumobs := SumPanic | SumIs (z : Z).
 
 Definition agg_case := (list (list (col * list value)) * cbobs * sumobs)%type.
-Definition plan_case := (shape * N * N * N * bool)%type.
+Definition plan_case := (shape * N * N * N * bool * bool * bool)%type.
 
 Fixpoint mism {A} (ok : A -> bool) (i : N) (l : list A) : list N :=
   match l with
@@ -71,5 +71,5 @@ Definition countby_mismatches (l : list agg_case) : list N := mism countby_ok 0 
 Definition sum_mismatches (l : list agg_case) : list N := mism sum_ok 0 l.
 
 Definition plan_ok (c : plan_case) : bool :=
-  let '(sh, par, nobj, nvec, v) := c in Bool.eqb (vectorized sh par nobj nvec) v.
+  let '(sh, par, nobj, nvec, filt, sliced, v) := c in Bool.eqb (vectorized sh par nobj nvec filt sliced) v.
 Definition plan_mismatches (l : list plan_case) : list N := mism plan_ok 0 l.
